@@ -48,6 +48,9 @@ def pool(le, rng):
     for _ in range(14):
         l, r = rng.choice(plain), rng.choice(plain)
         syms.append(le.LicenseWithExceptionSymbol(l, r))
+    for lk, rk in (('a WITH b', 'c'), ('a', 'b WITH c'), ('a WITH b', 'b WITH c'), ('a', 'b'), ('a with b', 'c')):
+        for lf in (False, True):
+            syms.append(le.LicenseWithExceptionSymbol(le.LicenseSymbol(lk, is_exception=lf), le.LicenseSymbol(rk)))
     syms.append(le.LicenseWithExceptionSymbol(le.LicenseSymbol('a'), le.LicenseSymbol('b')))
     syms.append(le.LicenseWithExceptionSymbol(le.LicenseSymbol('a'), le.LicenseSymbol('b', is_exception=True)))
     return syms
